@@ -185,6 +185,9 @@ class Typer:
         if h == 'ix_': return ('ix', [s.ty(a) for a in at[1:]])
         if h == 'T':
             a = s.ty(at[1])
+            if a[0] == 'tuples':
+                def col(x): return ('idxs', x[1], a[1]) if x[0] == 'idx' else (('labs', a[1]) if x[0] == 'lab' else ('arr', (a[1],)))
+                return ('tuple', [col(x) for x in a[2]])
             return ('arr', tuple(reversed(a[1]))) if a[0] == 'arr' else a
         if h == 'inv':
             a = s.ty(at[1])
@@ -817,7 +820,8 @@ class Typer:
             if r[6] is True and any(listlike(ik, it) for ik, it in zip(idx, items)):
                 s.ob('scatter-accumulate', False, "augmented assignment through an index LIST: numpy buffers the operation, contributions that address the same position "
                      "more than once are not summed (use np.add.at or a matrix product)", text)
-            elif r[6] is True and any(it[0] not in ('idx', 'idxplus', 'num', 'slice', 'size', 'tuple', 'mask') for it in items):
+            elif r[6] is True and any(it[0] not in ('idx', 'idxplus', 'num', 'slice', 'size', 'tuple', 'mask') or (it[0] == 'num' and isinstance(ik, tuple) and _poly_items(ik) not in ((),) and not (len(_poly_items(ik) or ()) == 1 and _poly_items(ik)[0][0] == ()))
+                                      for ik, it in zip(idx, items)):
                 s.ob('scatter-accumulate', None, "augmented assignment through an index that was not typed as ONE position: if it is an index array, contributions "
                      "that address the same position more than once are not summed", text)
             res = s.index_array(base, items, text, 'store-index')
@@ -908,6 +912,8 @@ class Typer:
                 return ('dict', name)
             return unk('dict-comp')
         el = s.ty(eltk)
+        if el[0] == 'tuple' and el[1] and kind in ('list', 'gen') and all(x[0] in ('idx', 'idxplus', 'lab', 'num') for x in el[1]) and any(x[0] == 'idx' for x in el[1]):
+            return ('tuples', res, tuple(el[1]))          # a list of (index, ...) tuples: np.transpose(...) / zip(*...) of it is a tuple of parallel lists
         if el[0] in ('idx',): return ('idxs', el[1], res)
         if el[0] == 'idxplus': return ('idxs', el[1][1], res)
         if el[0] == 'lab': return ('labs', res)
